@@ -49,6 +49,7 @@ var bStub = []string{"network (SimNet: peer HTTP and a fake Honeycomb API /1/bat
 
 const hnyHost = "api.hny.sim"
 const legacyKey = "abcdef0123456789abcdef0123456789"
+const legacyKey2 = "0123456789abcdef0123456789abcdef" // a second tenant
 const envKey = "hcxik_01hqk4k20cjeh63wca8vva5stwhcxik01hqk4k20cjeh63wca8vva5stw0" // environment-scoped ingest key
 
 type nullStartStopLogger struct{}
